@@ -311,6 +311,32 @@ func runFixed(c *core.Ctx, i int) {
 		r.reopen()
 		ask()
 		r.c.Branch("fixed/container-boundary-multi-field")
+	case 22:
+		// a FAILED flush (fault path of the write side; the seeded change c11-22 in its minimal
+		// shape): slot 3 is in a file; 3 again, 9 and 12 are in the memory database whose flush fails
+		// after the switch. The points must stay queryable right away, after further writes, and
+		// after close + reopen (Close flushes the immutable memory database again).
+		r.oracleOn = true
+		r.writeRow(0, sA, 3, 0, w1(1, 1), nil, false)
+		r.writeRow(0, sB, 3, 0, w1(1, 20), nil, false)
+		r.flush(0)
+		r.writeRow(0, sA, 3, 0, w1(1, 2), nil, false)
+		r.writeRow(0, sA, 9, 0, w1(1, 4), nil, false)
+		r.writeRow(0, sB, 12, 0, w1(1, 50), nil, false)
+		r.flushFail(0, func() {
+			r.query(q1(1, fnSum)) // immutable + file
+			r.writeRow(0, sA, 9, 0, w1(1, 8), nil, false)
+			r.writeRow(0, sA, 40, 0, w1(1, 16), nil, false)
+			r.query(q1(1, fnSum)) // new mutable + immutable + file
+			r.query(qSpec{qs: qs, qe: qe, ratio: 6, cond: allCond(), by: []int{1}, items: []qItem{{1, fnSum}}})
+			// a second Flush of the family is refused by the skip guard: nothing changes
+			if err := r.e.flush(0); err != nil {
+				r.c.Fail("flush-error", fmt.Sprintf("Flush after a failed flush: %v", err))
+			}
+			r.query(q1(1, fnSum))
+		})
+		r.query(q1(1, fnSum)) // after close + reopen: three files
+		r.c.Branch("fixed/failed-flush")
 	case 20:
 		runContainerRace(r)
 	case 21:
